@@ -236,9 +236,9 @@ func run(out *Out, r *Rand, tier string, replay []string) {
 		var fl []string
 		for _, l := range replay {
 			switch strings.Fields(l)[0] {
-			case "tx":
+			case "tx", "txd":
 				order, faults, ops := parseTxCase(l)
-				txOne(out, order, faults, ops)
+				txOne(out, order, faults, ops, strings.Fields(l)[0] == "txd")
 			case "fault":
 				fl = append(fl, l)
 			}
@@ -314,17 +314,25 @@ func run(out *Out, r *Rand, tier string, replay []string) {
 		if *maxRuns > 0 {
 			n = *maxRuns
 		}
-		// stratified by (fault kind, extra action): every stratum gets the same share
+		// every single-fault run (no extra action) -- they are cheap and each of them is the
+		// only witness of "this one operation fails": sampling them misses single-site defects --
+		// plus a stratified (fault kind x extra action) sample of the combinations
 		strata := map[string][]string{}
 		var keys []string
 		for _, l := range all {
 			cs, _ := parseCase(l)
+			if cs.xact == "none" {
+				pick = append(pick, l)
+				continue
+			}
 			k := cs.kind + "/" + cs.xact
 			if _, ok := strata[k]; !ok {
 				keys = append(keys, k)
 			}
 			strata[k] = append(strata[k], l)
 		}
+		n += len(pick)
+		out.Extra["x_quick_single_fault_runs"] = len(pick)
 		for len(pick) < n {
 			progressed := false
 			for _, k := range keys {
